@@ -33,6 +33,7 @@ ASSUMPTIONS = [
     "projector mode: admissible competitors are U R' Vt with the same reduced bases U, Vt as the fit (rotations between the reduced spaces)",
     "tolerances: orthogonality 1e-10, residual comparisons 1e-9 relative, planted recovery 1e-8 (cond(X) <= 1e3)",
 ]
+RULE = RULE + " " + forms.RULE_SUFFIX
 
 
 def gen(rng, tier, index):
